@@ -185,7 +185,13 @@ class Run:
         known = load_known_findings()
         reported: list[Violation] = []
         known_hits: list[tuple[Violation, dict[str, Any]]] = []
+        uniq: dict[tuple[str, str, str], Violation] = {}
         for v in self.violations:
+            if v.key() in uniq:
+                uniq[v.key()].extra["occurrences"] = uniq[v.key()].extra.get("occurrences", 1) + 1
+            else:
+                uniq[v.key()] = v
+        for v in uniq.values():
             hit = match_known(known, self.prop_id, v)
             if hit is not None:
                 known_hits.append((v, hit))
